@@ -132,7 +132,12 @@ impl AttrStore {
                 continue;
             }
             // no format nodes with @typstyle off
-            if disable_next && !matches!(child_kind, SyntaxKind::Space | SyntaxKind::Hash) {
+            if disable_next
+                && !matches!(
+                    child_kind,
+                    SyntaxKind::Space | SyntaxKind::Parbreak | SyntaxKind::Hash
+                )
+            {
                 self.set_format_disabled(child);
                 disable_next = false;
                 continue;
